@@ -289,7 +289,7 @@ def run(tier, seed):
         "repeated) x is_case x is_re is evaluated and compared with the unfiltered result restricted by an independent "
         "match function; filter callback checked on top; no element twice; transitions = query evaluations")
     found = {}
-    deadline = time.time() + (200 if tier == "quick" else 3000)
+    deadline = time.time() + (900 if tier == "quick" else 6000)
     cs = cases(tier)
     k = seed % 7
     engine_b.run_cases(ID, cs[k:] + cs[:k], cov, found, deadline, level="queries/" + tier)
